@@ -60,6 +60,17 @@ def judge(prog, ctx, util, rule_prefix=""):
             ctx.fail(rule_prefix + "B2", inst, s.alloc.where, "exact-fit buffer too small: " + s.why, key="fit:" + s.key)
         else:
             ctx.inconclusive(rule_prefix + "B2", inst, s.alloc.where, s.why)
+    copies = buf.analyse_heap_copies(prog, util)
+    for h in copies:
+        ctx.touch(h.fn)
+        inst = "%s: %s(<heap>, %s)" % (h.fn.name, h.call.j.get("callee"), h.src)
+        if h.verdict == "ok":
+            ctx.ok(rule_prefix + "B3", inst, h.call.where, h.why)
+        elif h.verdict == "overflow":
+            ctx.fail(rule_prefix + "B3", inst, h.call.where,
+                     "unlimited copy of an arbitrarily long string into heap memory that was not sized for it: " + h.why, key="heapcopy:" + h.key)
+        else:
+            ctx.inconclusive(rule_prefix + "B3", inst, h.call.where, h.why)
     return arrays, sites, fits
 
 
